@@ -293,6 +293,12 @@ fn replay(steps: &[Step], cond: &Cond, tmpfs: &Option<PathBuf>, report: &mut Rep
                     op_index += 1;
                     rec.real = Some(real_delete(&arch, bands, *dry, false, icfg(cond, op_index, None)));
                 }
+                Step::LegacyTail => {
+                    rec.kind = "legacy-tail";
+                    if let Some(b) = legacy_tail(&arch) {
+                        rp.run.session.push(format!("put {}/BANDTAIL tail:-", band_name(b)));
+                    }
+                }
                 Step::Gc => {
                     rec.kind = "gc";
                     rec.i_req = Some(rp.run.session.push(format!("delete 0 0 {} - 0", crate::c05::MODEL_STRICT)));
@@ -531,6 +537,50 @@ fn gc_lock_probe(thorough: bool, report: &mut Report) {
     }
 }
 
+/// Directed: an archive with MORE THAN A THOUSAND block sub-directories (1500 files with distinct contents, one
+/// block each).  The same three-step history — backup, backup of the unchanged tree, delete of the first
+/// version — replayed under a current-thread and a multi-thread runtime must give identical archives, and the
+/// second backup must find every block again.  Real code + oracle (no model run).
+fn many_block_dirs(report: &mut Report) {
+    let work = tempfile::tempdir().unwrap();
+    let src = work.path().join("src");
+    fs::create_dir(&src).unwrap();
+    for i in 0..1500u32 {
+        fs::write(src.join(format!("f{i:04}")), format!("distinct content number {i}")).unwrap();
+        filetime::set_file_mtime(src.join(format!("f{i:04}")), filetime::FileTime::from_unix_time(1_600_000_000, 0)).unwrap();
+    }
+    let p = BackupParams { max_entries_per_hunk: 100_000, max_block_size: 1 << 16, small_file_cap: 0, owner: true, exclude: vec![] };
+    let mut snaps: Vec<ArchSnap> = vec![];
+    let mut results: Vec<Vec<String>> = vec![];
+    let mut subdirs = 0usize;
+    for (label, workers) in [("current-thread", None), ("multi-thread-4", Some(4usize))] {
+        let arch = work.path().join(format!("arch-{label}"));
+        let res: Vec<String> = with_runtime_workers(workers, || {
+            create_archive(&arch);
+            let a = real_backup(&arch, &src, &p, IceptConfig::default());
+            let b = real_backup(&arch, &src, &p, IceptConfig::default());
+            let d = real_delete(&arch, &[0], false, false, IceptConfig::default());
+            vec![a.result, b.result, d.result]
+        });
+        subdirs = fs::read_dir(arch.join("d")).map(|r| r.count()).unwrap_or(0);
+        results.push(res.iter().map(|r| r.split(' ').take(2).chain(r.split(' ').filter(|t| t.starts_with("errors=") || t.starts_with("unmodified_files=") || t.starts_with("written_blocks=") || t.starts_with("deleted_block_count="))).collect::<Vec<_>>().join(" ")).collect());
+        snaps.push(snapshot(&arch));
+    }
+    report.case("many-block-dirs", true);
+    report.hit("directed:many-block-subdirectories(>1000)");
+    report.hit_n("block-subdirectories", subdirs as u64);
+    let case = json!({"directed": "many-block-dirs", "files": 1500, "block_subdirectories": subdirs, "history": ["backup", "backup (unchanged)", "delete b0000"]});
+    if results[0] != results[1] {
+        report.oracle_fail("determinism:results-differ", case.clone(), "the same three operations report different results under a current-thread and a multi-thread runtime", json!({"current-thread": results[0], "multi-thread-4": results[1]}));
+    }
+    if let Some(d) = first_difference(&snaps[0], &snaps[1]) {
+        report.oracle_fail("determinism:archives-differ", case.clone(), "two replays of the same history produced different archives (more than a thousand block sub-directories)", d);
+    }
+    if !results[0][1].contains("unmodified_files=1500") || !results[0][1].contains("errors=0") {
+        report.oracle_fail("determinism:unchanged-backup-not-clean", case, "the second backup of the unchanged tree did not find every file unchanged without errors", json!(results[0][1]));
+    }
+}
+
 /// The same question for a gc that fails because ONE READ-CLASS OPERATION fails (a listing, a read, a stat):
 /// for every such operation of the fault-free gc, under a current-thread and a multi-thread runtime dropped as
 /// soon as the call returns — is `GC_LOCK` gone afterwards, and what does the next backup say?  The answers must
@@ -608,6 +658,7 @@ pub fn run(tier: &str, seed: u64, report: &mut Report) {
     }
     gc_lock_probe(thorough, report);
     gc_fault_probe(thorough, report);
+    many_block_dirs(report);
     let tmpfs = tmpfs_base();
     match &tmpfs {
         Some(p) => report.notes.push(format!("re-ordered sources are created on {} (tmpfs lists newest first), the plain one in the default temp directory", p.display())),
